@@ -77,3 +77,26 @@ Proof.
   destruct (tie_conclusions D k N bl msk cb El sols H1 H2) as (_ & _ & _ & _ & _ & _ & g). exact g.
 Qed.
 Print Assumptions C03_tie_gauge.
+
+(** ... and uniqueness: ANY U' satisfying the least-action conditions for the loaded H up to order
+    N agrees with the implementation's U up to order N (uniqueness theorem of Alg/Unique.v in the
+    truncated algebra; the left-inverse property of the diagonal solver is proved for the concrete
+    instance, Series/SymBase.v). *)
+Theorem C03_tie_unique :
+  forall (D k N : nat) (bl : list nat) (msk : list (list bool)) (cb : list bool) (El : list gq)
+         (sols : list (string * tser gq)),
+    check_alg D k N bl msk cb El false sols main_alg = true ->
+    inputs_ok D k N bl msk cb El sols = true ->
+    let BA := BAi D k bl msk cb in
+    let sol := asol D k sols in
+    forall U' : Inst.T D k gq,
+    ord 1 (U' - 1) ->
+    eqN D k N (adj U' * U') 1 ->
+    eqN D k N (Rp (adj U' * sol "H" * U')) 0 ->
+    eqN D k N (Sel (half ((U' - 1) - adj (U' - 1)))) 0 ->
+    eqN D k N U' (sol "U").
+Proof.
+  intros D k N bl msk cb El sols H1 H2 BA sol U' a b c d.
+  exact (tie_unique D k N bl msk cb El sols H1 H2 U' a b c d).
+Qed.
+Print Assumptions C03_tie_unique.
